@@ -35,13 +35,13 @@ RULE = ("(1) strip_peptides vs the scanners: every string over {A,k,.,[,],(,),-}
         "int64 around 0, 2^60, -2^62; int32 - always exact, the model sees integers over a common denominator), "
         "peptide column as object / str / string[python] / string[pyarrow] / categorical, target column as numpy bool / "
         "nullable boolean, row labels (permuted, offset, reversed, strings, negative, floats, sparse, (file,row) "
-        "MultiIndex, repeated = known finding), rng as Generator / int / numpy integer / RandomState, an earlier "
+        "MultiIndex, repeated as left by pd.concat without ignore_index), rng as Generator / int / numpy integer / RandomState, an earlier "
         "picked_protein call on another table with the same Proteins object, decoy prefixes rev_ DECOY_ XXX_ decoy- d. "
         "## r decoy_decoy_; after every call the peptide table and the Proteins object must be unchanged; "
         "3 (quick) / 10 (thorough) tables with 40..90 proteins and several hundred rows; colliding target / score "
         "column names and protein identifiers with a comma (known findings); (4) the same tables through brew-less "
         "assign_confidence(proteins=...) reading targets.proteins / decoys.proteins (q-values), and (4p) in drawn "
-        "presentations of the run: tab-delimited / Parquet PSM file (Parquet = known finding), hand-built "
+        "presentations of the run: tab-delimited / Parquet PSM file, hand-built "
         "OnDiskPsmDataset / read_pin, descs=[False] (model on negated scores), CONFIDENCE_CHUNK_SIZE in {1,2,3,5,7,n/2,"
         "n-1,n,n+1}, a second collection with its own prefix before or after the observed one, old result files / "
         "junk / an old level file in the destination directory, decoys=False, rng int / numpy integer, max_workers=3, "
@@ -65,7 +65,7 @@ ASSUMPTIONS = [
 ]
 TRUSTED_EXTRA = [
     "Python `re` (oracle for the three substitutions; compared exhaustively with the scanners on short strings)",
-    "DataFrame.sample(frac=1) (oracle: recorded row order; contract: covers every retained row)",
+    "DataFrame.sample(frac=1) (oracle: recorded row order = positions in the peptide table, which picked_protein relabels 0..n-1 whatever the caller's row labels are; contract: covers every retained row, no position twice)",
     "peptides.match_decoy (oracle: recorded decoy->target peptide table; target-only FASTA)",
     "mokapot.read_pin / OnDiskPsmDataset and the PSM / peptide levels of assign_confidence (C10, C03): the confidence stream only "
     "feeds one PSM per peptide string and spectrum",
@@ -339,7 +339,7 @@ def _exact(s):
     return Fraction(float(s))
 
 
-def _draw_pres(rng, c, allow_dup=True):
+def _draw_pres(rng, c):
     """a drawn presentation of a picked_protein case: each facet is non-default with a moderate probability so that
     a failing case shrinks to a single facet"""
     p = {}
@@ -370,7 +370,7 @@ def _draw_pres(rng, c, allow_dup=True):
     if p:
         c["pres"] = p
     if rng.random() < 0.4:
-        kinds = INDEX_KINDS + (["dup", "dup"] if allow_dup and not c.get("ties") else [])
+        kinds = INDEX_KINDS + ["dup", "dup"]      # repeated labels: pd.concat of per-file tables without ignore_index
         c["index"] = rng.choice(kinds)
     return c
 
@@ -717,12 +717,11 @@ def _proteins(c):
 class _Record:
     """records the two oracles while the real code runs"""
 
-    def __init__(self, pos=None):
+    def __init__(self):
         self.order = None
         self.dm = None
         self.orders = []        # one per groupby_max call / match_decoy call, in call order
         self.dms = []
-        self.pos = pos          # (how, score column, key -> row position) when the table does not carry the default index
 
     def __enter__(self):
         import pandas as pd
@@ -735,14 +734,15 @@ class _Record:
         def sample(df, *a, **k):
             out = rec.orig_sample(df, *a, **k)
             if "decoy" in df.columns and k.get("frac", a[1] if len(a) > 1 else None) == 1:
+                # picked_protein relabels its trimmed table 0..n-1 (whatever labels the caller's table carries: permuted,
+                # strings, repeated, MultiIndex ...), so the labels groupby_max shuffles ARE the row positions the model
+                # numbers its rows by.  Labels that are no positions (code that works on the caller's labels again) leave
+                # no usable order and the comparison with the model fails.
                 try:
-                    if rec.pos is None:
-                        rec.order = [int(v) for v in out.index]
-                    elif rec.pos[0] == "score":
-                        rec.order = [rec.pos[2][_exact(v)] for v in out[rec.pos[1]]]
-                    else:
-                        rec.order = [rec.pos[2][v] for v in out.index]
-                except Exception:       # e.g. a score column overwritten by a colliding name: no order to record
+                    rec.order = [int(v) for v in out.index]
+                    if any(isinstance(v, (bool, float)) or int(v) != v for v in out.index):
+                        rec.order = []
+                except Exception:
                     rec.order = []
                 rec.orders.append(rec.order)
             return out
@@ -909,12 +909,6 @@ def _run_picked(c):
     df, (tn, pn, sn) = _frame(c)
     before = df.copy(deep=True)
     snap = _snapshot(P) if P is not None else None
-    # the caller's row labels: a peptide table that was sorted or filtered without reset_index keeps its old labels
-    pos = None
-    if c.get("index") == "dup":
-        pos = ("score", sn, {_exact(v): j for j, v in enumerate(df[sn])})
-    elif c.get("index"):
-        pos = ("label", None, {(tuple(v) if isinstance(v, (list, tuple)) else v): j for j, v in enumerate(df.index)})
     # an earlier call with the same Proteins object (another table): nothing of it may survive into this call
     if p.get("earlier") and P is not None and rows:
         try:
@@ -927,7 +921,7 @@ def _run_picked(c):
         except Exception:
             pass
     np.random.seed(c["seed"] % (1 << 31))
-    with _Record(pos) as rec:
+    with _Record() as rec:
         def go():
             out = picked_protein(df, tn, pn, sn, P, _rng_arg(p.get("rng"), c["seed"]))
             ent = []
@@ -1214,16 +1208,8 @@ def finding_key(c, m, i):
     the symptom must match"""
     if c["fn"] == "strip":
         return None
-    p = c.get("pres") or {}
     if _is_colliding(c):
         return "picked_protein:column-name-collides-with-internal-column"
-    if c["fn"] == "picked" and c.get("index") == "dup" and i[0] == "ok" and (m is None or m[0] == "ok"):
-        # every row that shares its label with a winning row is returned as well
-        if m is None or (len(i[1]) > len(m[1]) and all(e in i[1] for e in m[1])):
-            return "picked_protein:repeated-row-labels"
-    if c["fn"] == "confidence" and p.get("fmt") == "parquet" and i[0] == "err" and i[1] == "ValueError" \
-            and (m is None or m[0] == "ok"):
-        return "assign_confidence:proteins-with-parquet-input"
     if _has_comma(c) and i[0] == "ok" and (m is None or _same_model(c, m, i)):
         return "picked_protein:protein-identifier-with-comma"
     return None
